@@ -80,14 +80,18 @@ macro_rules! run_m {
     }};
 }
 macro_rules! run_f {
-    ($g:expr, $gu:expr, $gf:expr, $id:expr, $enc:expr, $r:expr, $out:expr) => {{
+    ($g:expr, $gu:expr, $gf:expr, $id:expr, $enc:expr, $r:expr, $out:expr, $st:expr) => {{
         let g = $g; let gu = $gu; let gf = $gf;
         let (hdr, ops) = dump_view(g, |e| EdgeIndexable::to_index(&g, e.id()), g.edge_count(), EdgeIndexable::edge_bound(&g), &[$enc as i64]);
         emit_view($out, $id, &hdr, &ops);
         let ids: Vec<usize> = g.node_identifiers().map(|x| NodeIndexable::to_index(&g, x)).collect();
         if ids.len() >= 2 {
             for _ in 0..3 {
-                let s = ids[$r.below(ids.len())]; let mut t = ids[$r.below(ids.len())];
+                let mut s = ids[$r.below(ids.len())]; let mut t = ids[$r.below(ids.len())];
+                if let Some((sa, ta)) = $st {
+                    // the abstract source and sink, found through the node weights (= abstract ids)
+                    for x in g.node_indices() { if g[x] as usize == sa { s = x.index(); } if g[x] as usize == ta { t = x.index(); } }
+                }
                 if s == t { t = *ids.iter().find(|x| **x != s).unwrap(); }
                 let q: GOp = ("ford_fulkerson".into(), vec![s as i64, t as i64, 1 << 40]);
                 let res = catch_unwind(AssertUnwindSafe(|| q_flow(gu, &q).map(|mut v| { let extra = q_flow_f(gf, &q, &v); v.extend(extra); v })));
@@ -114,13 +118,15 @@ pub fn run_match(id: usize, a: &AbsGraph, enc: usize, r: &mut Rng, out: &mut Out
     out.stat(&format!("match_enc_{}", enc));
 }
 
-pub fn run_flow(id: usize, a: &AbsGraph, enc: usize, r: &mut Rng, out: &mut Out) {
+pub fn run_flow(id: usize, a: &AbsGraph, enc: usize, r: &mut Rng, out: &mut Out) { run_flow_st(id, a, enc, r, out, None) }
+
+pub fn run_flow_st(id: usize, a: &AbsGraph, enc: usize, r: &mut Rng, out: &mut Out, st: Option<(usize, usize)>) {
     let mut r2 = r.clone();
     let mut r3 = r.clone();
     match enc {
-        0 => { let g = build_graph::<Directed, u32>(a, r); let gu = build_graph_w::<Directed, u32, u64>(a, &mut r3, u); let gf = build_graph_w::<Directed, u32, f64>(a, &mut r2, f); run_f!(&g, &gu, &gf, id, enc, r, out) }
-        1 => { let g = build_graph::<Directed, u8>(a, r); let gu = build_graph_w::<Directed, u8, u64>(a, &mut r3, u); let gf = build_graph_w::<Directed, u8, f64>(a, &mut r2, f); run_f!(&g, &gu, &gf, id, enc, r, out) }
-        _ => { let g = build_stable::<Directed, u32>(a, r); let gu = build_stable_w::<Directed, u32, u64>(a, &mut r3, u); let gf = build_stable_w::<Directed, u32, f64>(a, &mut r2, f); run_f!(&g, &gu, &gf, id, enc, r, out) }
+        0 => { let g = build_graph::<Directed, u32>(a, r); let gu = build_graph_w::<Directed, u32, u64>(a, &mut r3, u); let gf = build_graph_w::<Directed, u32, f64>(a, &mut r2, f); run_f!(&g, &gu, &gf, id, enc, r, out, st) }
+        1 => { let g = build_graph::<Directed, u8>(a, r); let gu = build_graph_w::<Directed, u8, u64>(a, &mut r3, u); let gf = build_graph_w::<Directed, u8, f64>(a, &mut r2, f); run_f!(&g, &gu, &gf, id, enc, r, out, st) }
+        _ => { let g = build_stable::<Directed, u32>(a, r); let gu = build_stable_w::<Directed, u32, u64>(a, &mut r3, u); let gf = build_stable_w::<Directed, u32, f64>(a, &mut r2, f); run_f!(&g, &gu, &gf, id, enc, r, out, st) }
     }
     out.stat(&format!("flow_enc_{}", enc));
 }
@@ -154,6 +160,21 @@ pub fn gen(seed: u64, n: usize, out: &mut Out) {
             let mut a = gen_abs(&mut r, 8, simple, true, 0, 9);
             a.directed = true;
             if r.chance(40) { let mut extra = Vec::new(); for e in a.edges.iter() { if r.chance(40) { extra.push((e.1, e.0, 1 + r.below(6) as i64)); } } a.edges.extend(extra); }
+            if r.chance(20) {
+                // a network on which the first shortest augmenting paths block the optimum: flow has to be cancelled over a -> b
+                // (s=0, a=1, b=2, t=3, c=4, x=5, y=6, z=7), relabelled, with a few random extra edges
+                let base: [(usize, usize); 9] = [(0, 1), (1, 2), (2, 3), (0, 4), (4, 5), (5, 2), (1, 6), (6, 7), (7, 3)];
+                let mut p: Vec<usize> = (0..8).collect(); shuffle(&mut r, &mut p);
+                let c = 1 + r.below(3) as i64;
+                let mut edges: Vec<(usize, usize, i64)> = base.iter().map(|&(s, t)| (p[s], p[t], c)).collect();
+                for _ in 0..r.below(3) { edges.push((r.below(8), r.below(8), r.below(3) as i64)); }
+                shuffle(&mut r, &mut edges);
+                a = AbsGraph { directed: true, n: 8, edges };
+                out.stat("kind_cancellation_gadget");
+                let enc = [0usize, 2][r.below(2)];
+                run_flow_st(id, &a, enc, &mut r, out, Some((p[0], p[3])));
+                continue;
+            }
             let enc = [0usize, 1, 2, 2][r.below(4)];
             run_flow(id, &a, enc, &mut r, out);
         }
